@@ -457,6 +457,7 @@ type Clause struct {
 }
 
 type LoopSpec struct {
+	Progress   []*Expr // expressions that must strictly increase on every iteration (C07 progress)
 	Ordinal    int
 	Invariants []*Clause
 	Decreases  *Expr
@@ -490,6 +491,7 @@ type Contract struct {
 	Line      int
 	Opts      map[string]string
 	IsTrustedFile bool
+	Aliases map[string]string // extra name -> canonical receiver/parameter/result name
 }
 
 type SpecFunc struct {
@@ -542,7 +544,7 @@ var clauseKeywords = map[string]bool{
 	"func": true, "interface": true, "functype": true, "spec": true, "axiom": true, "lemma": true,
 	"ghostfield": true, "guarded_by": true, "monitor": true, "tags": true, "requires": true, "ensures": true,
 	"modifies": true, "loop": true, "invariant": true, "decreases": true, "ghost": true, "trusted": true,
-	"inline": true, "pure": true, "ghost_at_return": true, "call": true, "const": true, "nosafety": true, "opt": true, "decoder": true, "encoder": true,
+	"inline": true, "pure": true, "ghost_at_return": true, "call": true, "const": true, "nosafety": true, "opt": true, "decoder": true, "encoder": true, "progress": true,
 }
 
 // logicalLines strips the comment prefix and joins continuation lines.
@@ -850,6 +852,15 @@ func ParseSpecFile(path, pkg string, isGo, trusted bool) (*SpecFile, error) {
 			if curLoop != nil {
 				curLoop.Decreases = e
 			}
+		case "progress":
+			e, err := ParseExpr(rest)
+			if err != nil {
+				return nil, fail(i, "%v", err)
+			}
+			if curLoop == nil {
+				return nil, fail(i, "progress outside loop")
+			}
+			curLoop.Progress = append(curLoop.Progress, e)
 		case "call": // call ReadN#2: assert expr
 			parts := strings.SplitN(rest, ":", 2)
 			if len(parts) != 2 {
